@@ -35,7 +35,11 @@ type step struct {
 	Points []string  `json:"points,omitempty"`
 	Stmt   string    `json:"stmt,omitempty"`
 	Drop   *dropSpec `json:"drop,omitempty"`
-	pts    []model.Point
+	// crash steps: the file-system step the process was armed to die in front of (drawn from the
+	// history's stream on the first execution, kept for replays) and what the recorder reported
+	K          int64  `json:"k,omitempty"`
+	DiedBefore string `json:"died_before,omitempty"`
+	pts        []model.Point
 }
 
 type dropSpec struct {
@@ -68,6 +72,14 @@ type history struct {
 	Kind       string `json:"drop_kind"`
 	Young      bool   `json:"young_series,omitempty"` // the dropped series was first written right before the drop
 	Concurrent bool   `json:"concurrent_drops,omitempty"`
+	// Cold: the concurrent statements of the first round are the first DROP SERIES this server
+	// process executes for the database (no delete index exists yet); otherwise one sequential
+	// warm-up drop of a sacrificial series precedes the concurrent rounds
+	Cold bool `json:"first_drops_concurrent,omitempty"`
+	// After: what follows the first check after the drop: "" (further writes), "crash" (SIGKILL at
+	// a file-system step of a flush), "restart" (clean stop/start while rows acknowledged before
+	// the drop are still in the memtable / write-ahead log only)
+	After string `json:"after,omitempty"`
 }
 
 func lp(pts []model.Point) []string {
@@ -78,8 +90,8 @@ func lp(pts []model.Point) []string {
 	return out
 }
 
-func genHistory(r *rand.Rand, idx int, kind string, nbuild int, crash bool) *history {
-	h := &history{Index: idx, Kind: kind}
+func genHistory(r *rand.Rand, idx int, kind string, nbuild int, after string, cold bool) *history {
+	h := &history{Index: idx, Kind: kind, After: after}
 	u := kit.NewUniverse(2, 5, 14)
 	add := func(st step) {
 		st.Points = lp(st.pts)
@@ -155,6 +167,13 @@ func genHistory(r *rand.Rand, idx int, kind string, nbuild int, crash bool) *his
 		}
 	}
 	build(nbuild)
+	if after == "restart" || (after == "crash" && idx%4 == 3) {
+		// make sure that rows acknowledged before the drop are still in the memtable / write-ahead
+		// log when the server is stopped (or killed after the deleted ids have reached the disk)
+		if pts := fresh("autogen", 6); len(pts) > 0 {
+			add(step{Op: "write", RP: "autogen", pts: pts})
+		}
+	}
 	// the drop
 	d := &dropSpec{Kind: kind}
 	if kind == "series-concurrent" {
@@ -164,6 +183,18 @@ func genHistory(r *rand.Rand, idx int, kind string, nbuild int, crash bool) *his
 		h.Kind = "series"
 		h.Concurrent = true
 		d.Mst = u.Msts[r.IntN(len(u.Msts))]
+		h.Cold = cold
+		if !cold {
+			// the first DROP SERIES of a database creates its delete index; that creation is not
+			// serialised (separate finding, exercised by the cold variant): make it happen alone
+			warm := model.Point{Mst: d.Mst, Tags: map[string]string{"host": "warm", "region": "x"}, T: u.Times[1], Fields: map[string]model.Value{}}
+			for _, f := range u.Fields {
+				warm.Fields[f.Name] = kit.Value(r, f.Kind)
+			}
+			add(step{Op: "write", RP: "autogen", pts: []model.Point{warm}})
+			add(step{Op: "settle"})
+			add(step{Op: "drop", Stmt: "DROP SERIES FROM " + d.Mst + " WHERE host = 'warm'", Drop: &dropSpec{Kind: "series", Mst: d.Mst, Key: "host", Op: "=", Val: "warm", Pred: "host = 'warm'"}})
+		}
 		for round := 0; round < 4; round++ {
 			var pts []model.Point
 			var stmts []string
@@ -180,7 +211,7 @@ func genHistory(r *rand.Rand, idx int, kind string, nbuild int, crash bool) *his
 			add(step{Op: "settle"})
 			add(step{Op: "drop-concurrent", Stmt: strings.Join(stmts, ";"), Drop: &dropSpec{Kind: "series", Mst: d.Mst, Key: "host", Op: "=~", Val: fmt.Sprintf("^r%dc", round)}})
 		}
-		d.Key, d.Op, d.Val = "host", "=~", "^r[0-9]c"
+		d.Key, d.Op, d.Val = "host", "=~", "^(r[0-9]c|warm$)"
 		d.Pred = "host =~ /^r[0-9]c/ (24 concurrent statements per round)"
 		kind = "series"
 	} else if kind == "series-young" {
@@ -263,8 +294,12 @@ func genHistory(r *rand.Rand, idx int, kind string, nbuild int, crash bool) *his
 		}
 	}
 	add(step{Op: "check"})
-	if crash {
+	switch after {
+	case "crash":
 		add(step{Op: "crash"})
+		add(step{Op: "check"})
+	case "restart":
+		add(step{Op: "restart"})
 		add(step{Op: "check"})
 	}
 	if kind == "database" {
@@ -359,9 +394,38 @@ func isMissing(err error) bool {
 
 // shape: a read and the way to compute its expected answer from the model.
 type shapeResult struct {
-	name string
-	diff []string
-	err  error
+	name      string
+	diff      []string
+	err       error
+	query     string
+	tagFilter bool           // a row selection with a tag condition (answered through the tag-filter cache)
+	extra     []model.RowKey // row selections: every row returned that the model does not hold
+	missing   []model.RowKey // row selections: every row of the model that was not returned
+	tolerated int            // statistics-served aggregate after a crash: groups inside the replay allowance
+	redo      func() shapeResult
+}
+
+// replayAllowance: after a SIGKILL the write-ahead log is replayed over whatever the interrupted
+// flush had already committed, so rows acknowledged since the last completed flush can exist in
+// two flush generations. Aggregates served from stored statistics (no exact hint, no field
+// filter, no time bucket) are allowed to count such rows twice (C09's statement); every other
+// shape must stay exact. Per (measurement, host): how many surviving rows could have been
+// replayed, and the sums of their positive / negative fi values.
+type replayAllowance struct {
+	rows   map[string]int64
+	sumPos map[string]int64
+	sumNeg map[string]int64
+}
+
+func (a *replayAllowance) add(rp, mst, host string, fi int64) {
+	for _, k := range []string{rp + "|" + mst + "|" + host, rp + "|" + mst + "|*"} {
+		a.rows[k]++
+		if fi >= 0 {
+			a.sumPos[k] += fi
+		} else {
+			a.sumNeg[k] += fi
+		}
+	}
 }
 
 func rowsOf(m *model.Model, mst string, keep func(k model.RowKey, row map[string]model.Value) bool) map[model.RowKey]map[string]model.Value {
@@ -377,7 +441,7 @@ func rowsOf(m *model.Model, mst string, keep func(k model.RowKey, row map[string
 	return out
 }
 
-func (rn *runner) evalShapes(s *proc.Server, w *world, rpName string, r *rand.Rand) []shapeResult {
+func (rn *runner) evalShapes(s *proc.Server, w *world, rpName string, r *rand.Rand, allow *replayAllowance) []shapeResult {
 	var out []shapeResult
 	m := w.rp[rpName] // may be nil (dropped rp / database)
 	from := func(mst string) string {
@@ -386,19 +450,22 @@ func (rn *runner) evalShapes(s *proc.Server, w *world, rpName string, r *rand.Ra
 		}
 		return fmt.Sprintf(`"%s"."%s"."%s"`, db, rpName, mst)
 	}
+	var dumpOnce func(name, q string, want model.Contents) shapeResult
 	dump := func(name, q string, mst string, want model.Contents) {
+		sr := dumpOnce(name, q, want)
+		sr.redo = func() shapeResult { return dumpOnce(name, q, want) }
+		out = append(out, sr)
+	}
+	dumpOnce = func(name, q string, want model.Contents) shapeResult {
 		res, err := s.Query(db, q, nil)
 		if err != nil {
 			if isMissing(err) && len(want) == 0 {
-				out = append(out, shapeResult{name: name})
-				return
+				return shapeResult{name: name, query: q}
 			}
 			if isMissing(err) {
-				out = append(out, shapeResult{name: name, diff: []string{fmt.Sprintf("%s: %v but the model still holds %d rows", q, err, len(want))}})
-				return
+				return shapeResult{name: name, query: q, diff: []string{fmt.Sprintf("%s: %v but the model still holds %d rows", q, err, len(want))}}
 			}
-			out = append(out, shapeResult{name: name, err: err})
-			return
+			return shapeResult{name: name, query: q, err: err}
 		}
 		var series []proc.Series
 		if len(res.Results) > 0 {
@@ -413,9 +480,20 @@ func (rn *runner) evalShapes(s *proc.Server, w *world, rpName string, r *rand.Ra
 		for i := range d {
 			d[i] = q + " => " + d[i]
 		}
-		out = append(out, shapeResult{name: name, diff: d})
+		sr := shapeResult{name: name, diff: d, query: q, tagFilter: strings.HasPrefix(name, "tag")}
+		for k, row := range got {
+			if len(row) > 0 && len(want[k]) == 0 {
+				sr.extra = append(sr.extra, k)
+			}
+		}
+		for k, row := range want {
+			if len(row) > 0 && len(got[k]) == 0 {
+				sr.missing = append(sr.missing, k)
+			}
+		}
+		return sr
 	}
-	agg := func(name, q string, want map[string]int64, groupTag string, valueCol string) {
+	agg := func(name, q string, want map[string]int64, groupTag string, valueCol string, mst string, statsServed bool) {
 		res, err := s.Query(db, q, nil)
 		if err != nil {
 			if isMissing(err) && len(want) == 0 {
@@ -465,16 +543,34 @@ func (rn *runner) evalShapes(s *proc.Server, w *world, rpName string, r *rand.Ra
 		for k := range got {
 			keys[k] = true
 		}
+		tolerated := 0
 		for k := range keys {
-			if want[k] != got[k] {
-				d = append(d, fmt.Sprintf("%s => group %q: %d, want %d", q, k, got[k], want[k]))
+			if want[k] == got[k] {
+				continue
 			}
+			if statsServed && allow != nil {
+				ak := rpName + "|" + mst + "|" + k
+				if groupTag == "" {
+					ak = rpName + "|" + mst + "|*"
+				}
+				lo, hi := want[k], want[k]+allow.rows[ak]
+				if valueCol == "sum" {
+					lo, hi = want[k]+allow.sumNeg[ak], want[k]+allow.sumPos[ak]
+				}
+				if got[k] >= lo && got[k] <= hi {
+					tolerated++
+					continue
+				}
+				d = append(d, fmt.Sprintf("%s => group %q: %d, want %d (with the rows replayed after the crash counted twice at most %d)", q, k, got[k], want[k], hi))
+				continue
+			}
+			d = append(d, fmt.Sprintf("%s => group %q: %d, want %d", q, k, got[k], want[k]))
 		}
 		sort.Strings(d)
 		if len(d) > 5 {
 			d = d[:5]
 		}
-		out = append(out, shapeResult{name: name, diff: d})
+		out = append(out, shapeResult{name: name, diff: d, query: q, tolerated: tolerated})
 	}
 	for _, mst := range allMsts {
 		all := rowsOf(m, mst, nil)
@@ -523,18 +619,18 @@ func (rn *runner) evalShapes(s *proc.Server, w *world, rpName string, r *rand.Ra
 				cntTime[strconv.FormatInt(b, 10)]++
 			}
 		}
-		agg("count-no-pushdown-hint", "SELECT /*+ Exact_Statistic_Query */ count(fi) FROM "+from(mst), cntAll, "", "count")
-		agg("count-pushdown", "SELECT count(fi) FROM "+from(mst), cntAll, "", "count")
-		agg("count-group-by-tag", "SELECT count(fi) FROM "+from(mst)+" GROUP BY host", cntHost, "host", "count")
-		agg("sum-group-by-tag", "SELECT sum(fi) FROM "+from(mst)+" GROUP BY host", sumHost, "host", "sum")
-		agg("count-group-by-time", fmt.Sprintf("SELECT count(fi) FROM %s WHERE time >= %d AND time <= %d GROUP BY time(2s) fill(none)", from(mst), kit.BaseTime-10_000_000_000, kit.BaseTime+200_000_000_000), cntTime, "time", "count")
+		agg("count-no-pushdown-hint", "SELECT /*+ Exact_Statistic_Query */ count(fi) FROM "+from(mst), cntAll, "", "count", mst, false)
+		agg("count-pushdown", "SELECT count(fi) FROM "+from(mst), cntAll, "", "count", mst, true)
+		agg("count-group-by-tag", "SELECT count(fi) FROM "+from(mst)+" GROUP BY host", cntHost, "host", "count", mst, true)
+		agg("sum-group-by-tag", "SELECT sum(fi) FROM "+from(mst)+" GROUP BY host", sumHost, "host", "sum", mst, true)
+		agg("count-group-by-time", fmt.Sprintf("SELECT count(fi) FROM %s WHERE time >= %d AND time <= %d GROUP BY time(2s) fill(none)", from(mst), kit.BaseTime-10_000_000_000, kit.BaseTime+200_000_000_000), cntTime, "time", "count", mst, false)
 		cntFiltered := map[string]int64{}
 		for _, row := range all {
 			if v, ok := row["fi"]; ok && v.I >= thr {
 				cntFiltered[""]++
 			}
 		}
-		agg("count-field-filter", fmt.Sprintf("SELECT count(fi) FROM %s WHERE fi >= %d", from(mst), thr), cntFiltered, "", "count")
+		agg("count-field-filter", fmt.Sprintf("SELECT count(fi) FROM %s WHERE fi >= %d", from(mst), thr), cntFiltered, "", "count", mst, false)
 	}
 	if rpName == "autogen" {
 		// listings (index level): series, tag keys, tag values of the database
@@ -705,8 +801,27 @@ func (rn *runner) run(h *history, worker int) {
 	dropped := false
 	moment := "before-drop"
 	var pendingNew []model.Point
+	// rk: a row of one retention policy
+	rk := func(rp string, k model.RowKey) string {
+		if rp == "" {
+			rp = "autogen"
+		}
+		return rp + "|" + k.String()
+	}
+	unflushed := map[string]bool{}       // rows acknowledged since the last completed flush (memtable + write-ahead log only)
+	unflushedAtDrop := map[string]bool{} // ... at the moment of a DROP SERIES (union over the drop statements)
+	newSeries := map[string]bool{}       // rp|mst|series first written, or written again after its drop, after the first check
+	tagReadsBegan := false               // the first check (and with it the first tag-filter reads, which fill the cache) has run
+	var allow *replayAllowance           // set by a crash, kept until the end of the history
+	tombstones := ""                     // crash after DROP SERIES: had the delete index of the policy changed on disk at the kill?
+	var delIndexBefore string            // listing of the delete index parts before the (last) DROP SERIES
+	delIndexParts := func() string {
+		dirs, _ := filepath.Glob(filepath.Join(s.DataDir(), "data", db, "*", "*", "index", "18446744073709551615_*", "mergeset", "*_*_*"))
+		sort.Strings(dirs)
+		return strings.Join(dirs, ",")
+	}
 	wit := func(i int, extra map[string]any) map[string]any {
-		x := map[string]any{"history": history{Index: h.Index, Kind: h.Kind, Young: h.Young, Concurrent: h.Concurrent, Steps: h.Steps[:i+1]}}
+		x := map[string]any{"history": history{Index: h.Index, Kind: h.Kind, Young: h.Young, Concurrent: h.Concurrent, Cold: h.Cold, After: h.After, Steps: h.Steps[:i+1]}}
 		for k, v := range extra {
 			x[k] = v
 		}
@@ -735,6 +850,13 @@ func (rn *runner) run(h *history, worker int) {
 				c.Inconclusive("write-not-acknowledged", 1)
 				fmt.Printf("INCONCLUSIVE C13 history %d step %d: write answered %d %s %v\n", h.Index, i, wr.Status, wr.Body, wr.Err)
 				return
+			}
+			for _, p := range st.pts {
+				k := model.RowKey{Mst: p.Mst, Series: model.SeriesKey(p.Tags), T: p.T}
+				unflushed[rk(st.RP, k)] = true
+				if m := w.rp[rpOr(st.RP)]; tagReadsBegan && (m == nil || !hasSeries(m, k.Mst, k.Series)) {
+					newSeries[rpOr(st.RP)+"|"+k.Mst+"|"+k.Series] = true
+				}
 			}
 			w.get(st.RP).Apply(st.pts)
 			for _, p := range st.pts {
@@ -775,7 +897,9 @@ func (rn *runner) run(h *history, worker int) {
 			}
 			pendingNew = nil
 		case "flush":
-			_ = s.Flush()
+			if err := s.Flush(); err == nil {
+				unflushed = map[string]bool{}
+			}
 		case "compact-level":
 			_ = s.Compact("level")
 		case "compact-full":
@@ -788,41 +912,79 @@ func (rn *runner) run(h *history, worker int) {
 			}
 		case "drop-concurrent":
 			stmts := strings.Split(st.Stmt, ";")
+			delIndexBefore = delIndexParts()
 			var wg sync.WaitGroup
 			failed := int32(0)
+			var firstErr atomic.Value
 			for _, q := range stmts {
 				wg.Add(1)
 				go func(q string) {
 					defer wg.Done()
 					if _, err := s.Query(db, q, nil); err != nil {
 						atomic.AddInt32(&failed, 1)
+						firstErr.CompareAndSwap(nil, q+": "+err.Error())
 					}
 				}(q)
 			}
 			wg.Wait()
+			if failed > 0 && s.Alive() {
+				s.WaitExit(3 * time.Second) // a dying process closes its connections before it is reaped
+			}
+			if !s.Alive() {
+				sig := "server-died-during-concurrent-drop-series"
+				if h.Cold && !dropped {
+					sig += "|first-drops-since-start-are-concurrent"
+				}
+				c.Violation(sig+"|"+firstFatal(s.StdoutTail(1<<20)), fmt.Sprintf("history %d: the server died while %d concurrent DROP SERIES statements were in flight (%s ...)", h.Index, len(stmts), stmts[0]), wit(i, map[string]any{"stdout": firstFatalContext(s.StdoutTail(1 << 20))}))
+				return
+			}
 			if failed > 0 {
 				c.Inconclusive("concurrent-drop-rejected", int64(failed))
+				fmt.Printf("INCONCLUSIVE C13 history %d: %d of %d concurrent DROP SERIES statements were not acknowledged (%v)\n", h.Index, failed, len(stmts), firstErr.Load())
 				return
+			}
+			for k := range unflushed {
+				unflushedAtDrop[k] = true
 			}
 			w.applyDrop(st.Drop)
 			dropped = true
 			moment = "after-drop"
 			c.Count("concurrent-drop-statements-acknowledged", int64(len(stmts)))
 		case "drop":
+			delIndexBefore = delIndexParts()
 			if _, err := s.Query(db, st.Stmt, nil); err != nil {
 				c.Inconclusive("drop-rejected", 1)
 				fmt.Printf("INCONCLUSIVE C13 history %d: %s: %v\n", h.Index, st.Stmt, err)
 				return
 			}
+			if st.Drop.Kind == "series" {
+				for k := range unflushed {
+					unflushedAtDrop[k] = true
+				}
+			}
 			w.applyDrop(st.Drop)
 			dropped = true
 			moment = "after-drop"
 		case "restart", "crash":
+			hadUnflushed := len(unflushed) > 0
 			if st.Op == "restart" {
 				s.Stop(60 * time.Second)
 			} else {
+				// every second crash after DROP SERIES waits until the deleted ids have reached the disk
+				// (the delete index of the policy shows a new part; the table flushes in the
+				// background about once a second), so that both sides of that window are exercised
+				if h.Kind == "series" && dropped && (h.Index/2)%2 == 1 {
+					for t := 0; t < 50 && delIndexParts() == delIndexBefore; t++ {
+						time.Sleep(100 * time.Millisecond)
+					}
+				}
 				// crash at a seeded file-system step of a flush issued after the drop
-				_ = s.FsArm(1+int64(r.IntN(25)), 0)
+				k := 1 + int64(r.IntN(25))
+				if st.K > 0 {
+					k = st.K // replay of a witness
+				}
+				st.K = k
+				_ = s.FsArm(k, 0)
 				_ = s.Flush()
 				if s.Alive() {
 					s.WaitExit(2 * time.Second)
@@ -831,8 +993,30 @@ func (rn *runner) run(h *history, worker int) {
 					_ = s.FsArm(0, 0)
 					s.Kill()
 				}
-				s.DieLog()
+				st.DiedBefore = strings.ReplaceAll(s.DieLog(), s.Cfg.Dir, "")
+				c.Distinct("crash-position", crashClass(st.DiedBefore))
+				// the write-ahead log is replayed over whatever the interrupted flush had committed
+				allow = &replayAllowance{rows: map[string]int64{}, sumPos: map[string]int64{}, sumNeg: map[string]int64{}}
+				for rpName, m := range w.rp {
+					for k, row := range m.Rows {
+						if v, ok := row["fi"]; ok && unflushed[rk(rpName, k)] {
+							allow.add(rpName, k.Mst, parseSeries(k.Series)["host"], v.I)
+						}
+					}
+				}
+				if h.Kind == "series" && dropped {
+					tombstones = "tombstones-on-disk-at-kill"
+					if delIndexParts() == delIndexBefore {
+						tombstones = "tombstones-not-on-disk-at-kill"
+					}
+				}
+				if os.Getenv("C13_DEBUG") != "" {
+					fmt.Printf("DEBUG history %d crash k=%d died-before=%q %s unflushed-at-drop=%d\n", h.Index, k, st.DiedBefore, tombstones, len(unflushedAtDrop))
+				}
 			}
+			// after a clean stop the memtable has been flushed or is replayed from the log: either
+			// way nothing is unflushed in the sense of "replayed over committed files"
+			unflushed = map[string]bool{}
 			if err := s.Start(); err != nil {
 				c.Broken("restart: %v", err)
 				return
@@ -847,6 +1031,9 @@ func (rn *runner) run(h *history, worker int) {
 			}
 			disableBackground(s)
 			moment = "after-" + st.Op
+			if st.Op == "restart" && hadUnflushed {
+				moment = "after-restart-with-unflushed-rows"
+			}
 			// wait until the surviving data are all visible again
 			want := model.Contents{}
 			for _, mm := range []*model.Model{w.rp["autogen"]} {
@@ -869,8 +1056,9 @@ func (rn *runner) run(h *history, worker int) {
 			if h.Kind == "rp" {
 				rps = append(rps, "rp1")
 			}
+			tagReadsBegan = true
 			for _, rp := range rps {
-				for _, sr := range rn.evalShapes(s, w, rp, r) {
+				for _, sr := range rn.evalShapes(s, w, rp, r, allow) {
 					c.Eval(1)
 					if sr.err != nil {
 						if !s.Alive() {
@@ -884,6 +1072,29 @@ func (rn *runner) run(h *history, worker int) {
 					c.Nontrivial(fmt.Sprintf("%s|%s|%s|%s", h.Kind, predClass(h), sr.name, moment))
 					c.Distinct("read-shape", sr.name)
 					c.Distinct("moment", moment)
+					if sr.tolerated > 0 {
+						c.Count("after-crash:statistics-served-aggregate-counts-replayed-rows-twice(C09-carve-out,not-gating)", int64(sr.tolerated))
+					}
+					// visibility rule: a series first written (or re-created) after the tag-filter reads
+					// began can stay invisible to a tag-filter read whose result was cached before, until
+					// the cache turns over (the index table signals it at most every 10 s); the same
+					// happens to a series that was never dropped. Re-read (bounded); only a persistent
+					// miss is judged.
+					if len(sr.diff) > 0 && sr.tagFilter && sr.redo != nil && onlyMissingRowsOf(sr, rp, newSeries) {
+						redo := sr.redo
+						for t := 0; t < 40 && len(sr.diff) > 0 && onlyMissingRowsOf(sr, rp, newSeries) && s.Alive(); t++ {
+							time.Sleep(time.Second)
+							sr = redo()
+							sr.tagFilter = true
+						}
+						if len(sr.diff) == 0 && sr.err == nil {
+							c.Count("new-series-reached-a-cached-tag-filter-read-after-a-lag(not-gating)", 1)
+						}
+					}
+					if sr.err != nil {
+						c.Inconclusive("query-error:"+sr.name, 1)
+						continue
+					}
 					if len(sr.diff) > 0 {
 						cls := "wrong-answer"
 						if strings.Contains(sr.diff[0], "extra row") || strings.Contains(sr.diff[0], "lists dropped") || strings.Contains(sr.diff[0], ", want 0") {
@@ -897,9 +1108,50 @@ func (rn *runner) run(h *history, worker int) {
 						if h.Young && cls == "dropped-data-still-returned" {
 							cls += "|series-first-written-right-before-the-drop"
 						}
-						c.Violation(fmt.Sprintf("drop-%s|%s|shape=%s", h.Kind, cls, sr.name),
+						// what the extra rows are and when the process died decide which defect this is
+						var detail []string
+						if strings.HasPrefix(cls, "dropped-data-still-returned") && h.Kind == "series" {
+							if moment == "after-crash" && tombstones != "" {
+								detail = append(detail, tombstones)
+							}
+							if moment != "after-drop" && len(sr.extra) > 0 {
+								only := true
+								for _, k := range sr.extra {
+									if !unflushedAtDrop[rk(rp, k)] {
+										only = false
+									}
+								}
+								if only {
+									detail = append(detail, "only-rows-unflushed-at-the-drop")
+								} else {
+									detail = append(detail, "rows-flushed-before-the-drop-too")
+								}
+							}
+							if h.Concurrent && h.Cold {
+								detail = append(detail, "first-drops-since-start-are-concurrent")
+							}
+							if h.Concurrent && len(sr.extra) > 0 {
+								first := true
+								for _, k := range sr.extra {
+									if !strings.HasPrefix(parseSeries(k.Series)["host"], "r0c") {
+										first = false
+									}
+								}
+								if first {
+									detail = append(detail, "only-series-of-the-first-round")
+								} else {
+									detail = append(detail, "series-of-later-rounds-too")
+								}
+							}
+						}
+						sig := fmt.Sprintf("drop-%s|%s|moment=%s", h.Kind, cls, moment)
+						if len(detail) > 0 {
+							sig += "|" + strings.Join(detail, "|")
+						}
+						sig += "|shape=" + sr.name
+						c.Violation(sig,
 							fmt.Sprintf("history %d, %s, %s (rp %s): %s", h.Index, dropStmt(h), moment, rp, strings.Join(sr.diff, "; ")),
-							wit(i, map[string]any{"shape": sr.name, "moment": moment, "diff": sr.diff}))
+							wit(i, map[string]any{"shape": sr.name, "moment": moment, "diff": sr.diff, "extra_rows": len(sr.extra), "missing_rows": len(sr.missing)}))
 						return
 					}
 				}
@@ -924,7 +1176,82 @@ func (rn *runner) run(h *history, worker int) {
 	}
 }
 
+func rpOr(rp string) string {
+	if rp == "" {
+		return "autogen"
+	}
+	return rp
+}
+
+func hasSeries(m *model.Model, mst, series string) bool {
+	for k, row := range m.Rows {
+		if k.Mst == mst && k.Series == series && len(row) > 0 {
+			return true
+		}
+	}
+	return false
+}
+
+// onlyMissingRowsOf: the answer differs from the model only by lacking rows, all of them rows
+// of series in the set.
+func onlyMissingRowsOf(sr shapeResult, rp string, set map[string]bool) bool {
+	if sr.err != nil || len(sr.extra) > 0 || len(sr.missing) == 0 {
+		return false
+	}
+	for _, d := range sr.diff {
+		if !strings.Contains(d, "missing row") {
+			return false
+		}
+	}
+	for _, k := range sr.missing {
+		if !set[rpOr(rp)+"|"+k.Mst+"|"+k.Series] {
+			return false
+		}
+	}
+	return true
+}
+
+// crashClass: "<mutation>:<what kind of file>" of the recorder's line about the mutation the
+// process died in front of ("<n> <kind> <path> <size> torn=<t>").
+func crashClass(die string) string {
+	f := strings.Fields(die)
+	if len(f) < 3 {
+		return "killed-after-the-flush-returned"
+	}
+	p := f[2]
+	what := "other"
+	switch {
+	case strings.Contains(p, "/index/18446744073709551615_"):
+		what = "delete-index"
+	case strings.Contains(p, "/index/"):
+		what = "series-index"
+	case strings.Contains(p, "/wal/"):
+		what = "write-ahead-log"
+	case strings.Contains(p, "/tssp/"):
+		what = "data-file"
+	}
+	return f[1] + ":" + what
+}
+
+// firstFatalContext: the fatal line and the goroutine that raised it.
+func firstFatalContext(out string) string {
+	lines := strings.Split(out, "\n")
+	for i, ln := range lines {
+		if strings.HasPrefix(ln, "panic:") || strings.HasPrefix(ln, "fatal error:") {
+			j := i + 14
+			if j > len(lines) {
+				j = len(lines)
+			}
+			return strings.Join(lines[i:j], "\n")
+		}
+	}
+	return ""
+}
+
 func dropStmt(h *history) string {
+	if h.Concurrent {
+		return "4 rounds of 24 concurrent DROP SERIES FROM m WHERE host = 'r<round>c<nn>'"
+	}
 	for _, st := range h.Steps {
 		if st.Op == "drop" {
 			return st.Stmt
@@ -934,6 +1261,9 @@ func dropStmt(h *history) string {
 }
 
 func predClass(h *history) string {
+	if h.Concurrent {
+		return "concurrent"
+	}
 	for _, st := range h.Steps {
 		if st.Op == "drop" && st.Drop != nil && st.Drop.Kind == "series" {
 			return "pred" + st.Drop.Op
@@ -996,9 +1326,11 @@ func firstFatal(s string) string {
 
 func main() {
 	c := vf.New("C13", "exploration")
-	c.SetRule("seeded sequential histories on a real ts-server (data in memtable, ordered, out-of-order and compacted files), then one DROP (series with a predicate selecting none/some/all via = != =~ !~, measurement, retention policy, database), further writes incl. to dropped series and re-created names, flush, reorganisation, restart (thorough: crash at a seeded file-system step); at each moment (after drop, after flush+reorganise, after restart/crash) a matrix of read shapes (no filter, tag = != =~ !~, field filter, count with/without statistics push-down, group by tag, group by time, SHOW SERIES / TAG VALUES / TAG KEYS) is compared with the model; distinct non-trivial = distinct (drop kind, predicate operator, read shape, moment)")
+	c.SetRule("seeded sequential histories on a real ts-server (data in memtable, ordered, out-of-order and compacted files), then one DROP (series with a predicate selecting none/some/all via = != =~ !~, measurement, retention policy, database), further writes incl. to dropped series and re-created names, flush, reorganisation, restart (thorough: every second history is killed at a seeded file-system step of a flush issued after the drop, every fourth is stopped and started cleanly right after the drop while rows acknowledged before it are still in the memtable; concurrent DROP SERIES rounds with and without a preceding sequential drop); at each moment (after drop, after flush+reorganise, after restart/crash) a matrix of read shapes (no filter, tag = != =~ !~, field filter, count with/without statistics push-down, group by tag, group by time, SHOW SERIES / TAG VALUES / TAG KEYS) is compared with the model; distinct non-trivial = distinct (drop kind, predicate operator, read shape, moment)")
 	c.Assume("the model applies the drop at its acknowledgement; writes acknowledged afterwards are fresh data")
 	c.Assume("a write to a just-dropped name that is refused is retried (bounded); only acknowledged writes enter the model")
+	c.Assume("after a SIGKILL, aggregates served from stored statistics (no exact hint, no field filter, no time bucket) may count rows acknowledged since the last completed flush twice (write-ahead-log replay over files the interrupted flush had committed; C09's carve-out for keys present in two flush generations); every other read shape stays exact")
+	c.Assume("a series first written or re-created after the tag-filter reads began may be missing from a tag-filter read answered from the tag-filter cache until the cache turns over (index table signals at most every 10 s; same for a never-dropped series): such a read is repeated up to 40 times at 1 s and judged on the last answer")
 	bin, err := proc.Build(c.RepoDir, c.Scratch, "ts-server", false)
 	if err != nil {
 		c.Broken("build ts-server: %v", err)
@@ -1049,7 +1381,16 @@ func main() {
 	var wg sync.WaitGroup
 	for i := 0; i < n; i++ {
 		r := c.Rand(uint64(6000 + i))
-		h := genHistory(r, i, kinds[i%len(kinds)], c.Pick(14, 30), c.Thorough() && i%2 == 1)
+		// thorough: every second history crashes after the drop, every fourth is stopped and
+		// started cleanly right after the drop (rows acknowledged before the drop still in the
+		// memtable); every other concurrent history issues its first drops concurrently
+		after := ""
+		if c.Thorough() && i%2 == 1 {
+			after = "crash"
+		} else if c.Thorough() && i%4 == 0 {
+			after = "restart"
+		}
+		h := genHistory(r, i, kinds[i%len(kinds)], c.Pick(14, 30), after, c.Thorough() && (i/len(kinds))%2 == 1)
 		w := <-sem
 		wg.Add(1)
 		go func(h *history, w int) {
